@@ -388,7 +388,9 @@ def prepare(res, pid, mods):
     return vlib.build_harness("c03"), broken
 
 
-ASSUMPTIONS = ["programs call resolve_cross_section_fixups only after the final flatten, and programs assembled with a known base do not flatten before the end "
+ASSUMPTIONS = ["sections larger than 2 GiB are exercised only by the dedicated witness harness c03big (direct jmp / b against a bound label); "
+               "the model follows fixes/C03-3.patch (range test in x86 EmitJmpCall) there",
+               "programs call resolve_cross_section_fixups only after the final flatten, and programs assembled with a known base do not flatten before the end "
                "(resolving / encoding absolute targets against a layout that later emissions invalidate is a usage error); "
                "user code never switches to the implicit .addrtab section (harness and model answer InvalidSection)",
                "code buffers are byte lists: capacity, realloc and grow_buffer are invisible; emission is append-only (no set_offset)",
@@ -399,6 +401,33 @@ ASSUMPTIONS = ["programs call resolve_cross_section_fixups only after the final 
                "model follows the repaired code: fixes/C03-1.patch (embed_label_delta range test), fixes/C03-2.patch (new_fixup on a bound label)"]
 
 
+def big_section_witness(res, tier):
+    """direct encoding against a label bound more than 2 GiB behind in the same section (buffers too large for the line
+    protocol: a dedicated harness emits the data and prints only the instruction; the Lean monitor judges the bytes)"""
+    hb = vlib.build_harness("c03big")
+    cases = [("x64", 0x80000000)] if tier == "quick" else [("x64", 0x7FFFFFF0), ("x64", 0x80000000), ("x64", 0x80000010), ("a64", 0x8000000), ("a64", 0x7FFFFFC)]
+    n = 0
+    for arch, dist in cases:
+        p = vlib.sh([str(hb), arch, "%x" % dist], timeout=900, env={"ASAN_OPTIONS": "detect_leaks=0"})
+        w = dict(x.split("=", 1) for x in p.stdout.split() if "=" in x)
+        if p.returncode != 0 or "offset" not in w:
+            res.notes.append("big-section witness %s %x did not run (rc=%d %s)" % (arch, dist, p.returncode, (p.stdout + p.stderr)[-200:]))
+            continue
+        n += 1
+        at, err, by = int(w["offset"], 16), int(w["err_branch"]), w.get("bytes", "")
+        if err != 0:
+            continue                       # reported as an error: allowed
+        ln = 5 if arch == "x64" else 4     # jmp rel32 / b
+        line = ("monsite x86rel %x 0 %s" % (at, by[:2 * ln])) if arch == "x64" else ("monsite a64 b %x 0 %s" % (at, by[:8]))
+        out, _, _ = vlib.run_model("C03", [line])
+        if out != ["good"]:
+            res.violation("direct encoding against a bound label %#x bytes behind in the same section is silently truncated: %s at %#x "
+                          "returned kOk with bytes %s (%s)" % (dist, "jmp L" if arch == "x64" else "b L", at, by[:2 * ln], out),
+                          {"ops": ["bigsite %s %x" % (arch, dist)], "impl": p.stdout.strip(), "monitor": out,
+                           "how": ".build/<tree>/asan/h_c03big %s %x" % (arch, dist)}, True, key="ref:direct-branch-wrong-target")
+    res.coverage["big_section_witnesses"] = n
+
+
 def run(res):
     rng = vlib.rng_for(res.seed, PID)
     res.assumptions += ASSUMPTIONS
@@ -407,10 +436,25 @@ def run(res):
         return
     progs = boundary_programs(rng, res.tier) + gen_programs(rng, res.tier)
     check_programs(res, PID, h, progs, broken)
+    big_section_witness(res, res.tier)
 
 
 def replay(data):
     ops = data["replay"].get("ops", [])
+    if ops and ops[0].startswith("bigsite"):
+        _, arch, dist = ops[0].split()
+        hb = vlib.build_harness("c03big")
+        p = vlib.sh([str(hb), arch, dist], timeout=900, env={"ASAN_OPTIONS": "detect_leaks=0"})
+        print(p.stdout.strip())
+        w = dict(x.split("=", 1) for x in p.stdout.split() if "=" in x)
+        if int(w.get("err_branch", "1")) != 0:
+            print("monitor: good (reported as an error)")
+            return 0
+        ln = 10 if arch == "x64" else 8
+        line = ("monsite x86rel %s 0 %s" % (w["offset"], w["bytes"][:ln])) if arch == "x64" else ("monsite a64 b %s 0 %s" % (w["offset"], w["bytes"][:ln]))
+        out, _, _ = vlib.run_model("C03", [line])
+        print("monitor:", out)
+        return 0 if out == ["good"] else 1
     h = vlib.build_harness("c03")
     impl, rc, err = vlib.run_lines([str(h)], ops)
     for o, r in zip(ops, impl):
